@@ -37,8 +37,10 @@ impl ConfigFile {
         for line in reader.lines().map_while(Result::ok) {
             if !line.is_empty() && line != "\0" {
                 if line.contains('<') || line.contains('>') {
-                    // Category
-                    let name = &line[1..line.len() - 1];
+                    // Category (a malformed category line is skipped)
+                    let Some(name) = line.get(1..line.len() - 1) else {
+                        continue;
+                    };
                     current_category = Some(String::from(name));
                     cfg.categories.push(String::from(name));
                 } else if let (Some(category), Some((key, value))) =
